@@ -36,6 +36,45 @@ def normname(name):
     return name
 
 
+ACQ_NORM = {'borrow': 'acq', 'read': 'acq', 'try_borrow': 'acq', 'try_read': 'acq', 'borrow_mut': 'acq_mut', 'write': 'acq_mut', 'try_borrow_mut': 'acq_mut', 'try_write': 'acq_mut'}
+
+
+def argsig(t, depth=0):
+    """flavour-independent rendering of a provenance term (no block numbers; guard acquisition normalised; payload wrappers dropped)"""
+    from .core import unwrap_payload
+    t = unwrap_payload(t)
+    if not isinstance(t, tuple) or not t:
+        return str(t)
+    if depth > 4:
+        return '~'
+    k = t[0]
+    if k == 'param':
+        return 'P%d' % t[1]
+    if k == 'f':
+        return '%s.%s' % (argsig(t[1], depth + 1), t[2])
+    if k == 'call':
+        nm = normname(t[1]).split('::')[-1].rstrip('>')
+        nm = ACQ_NORM.get(nm, nm)
+        if nm in ('unwrap', 'expect', 'branch', 'clone', 'deref', 'deref_mut', 'into_iter', 'as_ref', 'borrow_') and t[2]:
+            return argsig(t[2][0], depth)
+        return '%s(%s)' % (nm, ','.join(argsig(a, depth + 1) for a in t[2]))
+    if k == 'aggr':
+        return '%s{%s}' % (normname(t[1]).split('::')[-1], ','.join(argsig(a, depth + 1) for a in t[2]))
+    if k == 'const':
+        return str(t[1])
+    if k == 'join':
+        return '|'.join(sorted(set(argsig(a, depth + 1) for a in t[1])))
+    if k in ('binop', 'unop'):
+        return '%s(%s)' % (t[1], ','.join(argsig(a, depth + 1) for a in (t[2] if k == 'binop' else (t[2],))))
+    if k == 'discr':
+        return 'discr(%s)' % argsig(t[1], depth + 1)
+    if k == 'v':
+        return argsig(t[1], depth)
+    if k == 'fn':
+        return 'fn'
+    return k
+
+
 def _pred_label(F, b, pv, sb):
     """name of the predicate a switch block branches on"""
     t = b['blocks'][sb]['term']
@@ -113,11 +152,11 @@ def bag(F, b):
                     continue
                 if ak in ('std::option::Option::Some', 'std::result::Result::Ok', 'std::result::Result::Err', 'std::cmp::Reverse::Reverse') and False:
                     continue
-                ev[('AGGR', ak, depth, ctx_of(bi))] += 1
+                ev[('AGGR', ak, depth, ctx_of(bi), ())] += 1
             elif s['dst']['l'] == 0 and not s['dst']['p'] and rv['k'] == 'use' and rv['ops'][0]['k'] == 'const':
-                ev[('RET', rv['ops'][0]['v'], depth, ctx_of(bi))] += 1
+                ev[('RET', rv['ops'][0]['v'], depth, ctx_of(bi), ())] += 1
             elif rv['k'] == 'binop' and rv['op'] in ('Add', 'Sub', 'AddWithOverflow', 'SubWithOverflow', 'Mul', 'MulWithOverflow', 'Eq', 'Ne', 'Lt', 'Le', 'Gt', 'Ge'):
-                ev[('BINOP', rv['op'].replace('WithOverflow', ''), depth, ())] += 1
+                ev[('BINOP', rv['op'].replace('WithOverflow', ''), depth, (), ())] += 1
         t = bb['term']
         if t['k'] == 'call':
             c = t['callee']
@@ -137,7 +176,9 @@ def bag(F, b):
             # collection / pointer / comparison / iterator / serde operations; any other std call (printing, env, strings) is not an event
             if not (t.get('local') or t.get('rk') in ('unresolved', 'virtual', 'indirect') or nn == 'INDIRECT' or ALPHABET.match(nn)):
                 continue
-            ev[('CALL', nn, depth, ctx_of(bi))] += 1
+            # arguments by provenance (which value flows in), so that `insert(key(v))` and `insert(key(node))` differ
+            sig = tuple(argsig(pv.of_operand(a)) for a in t['args'])
+            ev[('CALL', nn, depth, ctx_of(bi), sig)] += 1
     return ev
 
 
@@ -170,7 +211,7 @@ STD_ONLY = re.compile(r'^(std::vec::|std::collections::|HSET|HMAP|\[T\]::|std::i
 # adaptors that keep order and multiplicity); mutating or order-changing ones (truncate, drain, retain, sort, swap_remove, ...) are not
 IDIOM_OPS = {'contains', 'contains_key', 'get', 'len', 'is_empty', 'iter', 'into_iter', 'next', 'position', 'enumerate', 'map', 'cloned', 'copied', 'collect',
              'pop', 'reverse', 'rev', 'last', 'first', 'ok_or', 'ok_or_else', 'unwrap_or', 'is_some', 'is_none', 'is_ok', 'is_err', 'as_ref', 'values', 'keys',
-             'any', 'all', 'find', 'for_each', 'count', 'with_capacity', 'new', 'default', 'and_then', 'ok', 'filter_map', 'flatten', 'zip', 'chain', 'by_ref', 'peekable'}
+             'any', 'all', 'find', 'for_each', 'count', 'index', 'skip', 'with_capacity', 'new', 'default', 'and_then', 'ok', 'filter_map', 'flatten', 'zip', 'chain', 'by_ref', 'peekable'}
 
 
 def coarse(F, b, seen=None):
@@ -186,7 +227,7 @@ def coarse(F, b, seen=None):
         r = t.get('res', '')
         if t.get('local') and r in F.bodies:
             local_bodies[normname(r)] = F.bodies[r]
-    for (kind, name, depth, cx), n in bag(F, b).items():
+    for (kind, name, depth, cx, sig), n in bag(F, b).items():
         if kind == 'CALL' and PLUMBING.match(name):
             continue
         if kind == 'AGGR' and (name.startswith('std::option::Option::') or name.startswith('std::result::Result::') or name.startswith('std::ops::ControlFlow::') or name.startswith('closure:')):
@@ -251,7 +292,7 @@ def sib(ctx):
             cdiff = coarse(F, F.bodies.get(owner_a, pa)) ^ coarse(F, F.bodies.get(owner_s, sy))
             # the copies may differ in which std collection / iterator operations they use (idiom), never in crate-local calls,
             # user-code calls, crate types or enum variants
-            if all(k == 'CALL' and STD_ONLY.match(n) and n.split('::')[-1].rstrip('>') in IDIOM_OPS for k, n in cdiff):
+            if all((k == 'CALL' and STD_ONLY.match(n) and n.split('::')[-1].rstrip('>') in IDIOM_OPS) or (k == 'AGGR' and n.startswith('std::ops::Range')) for k, n in cdiff):
                 cov = cov if cov is not None else rule_coverage(ctx)
                 ca, cs = cov.get(owner_a), cov.get(owner_s)
                 if ca and cs and ca[0] > 0 and cs[0] > 0 and ca[1] and cs[1]:
@@ -259,8 +300,8 @@ def sib(ctx):
                     out.append(Obl('SIB', unflav(pa['q']).replace('F::', '%s|%s::' % (F.flavour(pa), F.flavour(sy)), 1), sy['span'], 'same program up to Rc/Arc, RefCell/RwLock', True,
                                    'control structure / std idiom differs (%s), same crate-level operations; both copies pass their dedicated rules (%d / %d obligations)' % (', '.join(sorted(n.split('::')[-1] for k, n in cdiff)) or 'shape only', ca[0], cs[0])))
                     continue
-            why = 'plain-only: %s | sync-only: %s' % ('; '.join('%s %s d%d [%s] x%d' % (k[0], k[1], k[2], ','.join(k[3]), n) for k, n in list(d1.items())[:4]),
-                                                       '; '.join('%s %s d%d [%s] x%d' % (k[0], k[1], k[2], ','.join(k[3]), n) for k, n in list(d2.items())[:4]))
+            why = 'plain-only: %s | sync-only: %s' % ('; '.join('%s %s(%s) d%d [%s] x%d' % (k[0], k[1], ', '.join(k[4]), k[2], ','.join(k[3]), n) for k, n in list(d1.items())[:4]),
+                                                       '; '.join('%s %s(%s) d%d [%s] x%d' % (k[0], k[1], ', '.join(k[4]), k[2], ','.join(k[3]), n) for k, n in list(d2.items())[:4]))
         out.append(Obl('SIB', unflav(pa['q']).replace('F::', '%s|%s::' % (F.flavour(pa), F.flavour(sy)), 1), sy['span'], 'same program up to Rc/Arc, RefCell/RwLock', ok, why))
     # error sets and footprints of the public node operations
     for a, s in SIB.items():
